@@ -24,20 +24,21 @@ const minPackages = 12
 
 // Ctx is one loaded, type-checked program in SSA form plus its call graph.
 type Ctx struct {
-	Repo   string
-	Fset   *token.FileSet
-	Pkgs   map[string]*packages.Package // by import path, module packages only
-	All    []*packages.Package          // every package with syntax (deps too)
-	Prog   *ssa.Program
-	SSA    map[string]*ssa.Package // by import path (module + deps that have SSA)
-	CG     *callgraph.Graph
-	CHA    *callgraph.Graph
-	R      *Report
-	GOARCH string
-	Tags   string
-	Tier   string
-	CGKind string
-	Dump   string
+	Repo    string
+	Fset    *token.FileSet
+	Pkgs    map[string]*packages.Package // by import path, module packages only
+	immGlob map[*ssa.Global]bool
+	All     []*packages.Package // every package with syntax (deps too)
+	Prog    *ssa.Program
+	SSA     map[string]*ssa.Package // by import path (module + deps that have SSA)
+	CG      *callgraph.Graph
+	CHA     *callgraph.Graph
+	R       *Report
+	GOARCH  string
+	Tags    string
+	Tier    string
+	CGKind  string
+	Dump    string
 
 	fieldOwner map[*types.Var]string
 	eff        *Effects
